@@ -1443,6 +1443,56 @@ def r19_whole_record_flushed(idx, r):
         raise AnalysisError("record writers not found")
 
 
+def r20_numbered_fields_and_family_lookup(idx, r):
+    """(a) CCCC records come in numbered families (direction 1 / direction 2, ...): a field whose name ends in a digit is read and written with
+    the count that carries the same digit.  Swapping the counts keeps every fixture with equal counts intact and cuts (or over-reads) the list
+    otherwise.  (b) DLAYXS stores decay constants and emission spectra per precursor FAMILY, file wide; a nuclide lists the family numbers it
+    uses, in any order and possibly shared with other nuclides.  The per-nuclide tables are therefore filled by looking up each family number
+    (`table[family - 1]`), never by slicing a block that starts at the first family."""
+    import re
+    n = 0
+    for m in idx.modules.values():
+        if not m.name.startswith("armi.nuclearDataIO.cccc.") or ".tests" in m.name:
+            continue
+        for f in m.all_funcs():
+            for s_ in iter_stores(f.node):
+                if s_.value is None or not isinstance(s_.value, ast.Call) or not (call_attr(s_.value) or "").startswith("rw") or not s_.attr:
+                    continue
+                d = re.search(r"(\d)$", s_.attr)
+                if not d:
+                    continue
+                keys = [x.value for a in s_.value.args[1:] for x in ast.walk(a) if isinstance(x, ast.Constant) and isinstance(x.value, str)] + \
+                       [x.attr for a in s_.value.args[1:] for x in ast.walk(a) if isinstance(x, ast.Attribute)]
+                digits = {re.search(r"(\d)$", k).group(1) for k in keys if re.search(r"[A-Za-z](\d)$", k)}
+                if not digits:
+                    continue
+                n += 1
+                r.require(digits == {d.group(1)}, f"{f.qualname}:{s_.attr}:count-of-the-same-number", f, node=s_.stmt,
+                          msg=f"`{s_.attr}` is read/written with the count(s) numbered {sorted(digits)}: when the two counts differ the list is cut short or runs into the next field")
+    if n < 4:
+        raise AnchorMissing("numbered record fields with numbered counts (LABELS 3D record)")
+    f = idx.method("armi.nuclearDataIO.cccc.dlayxs.DlayxsIO", "readWrite")
+    loops = [x for x in walk_local(f.node) if isinstance(x, ast.For) and "nuclideFamily" in norm(x.iter)]
+    fam = {y.id for x in loops for y in ast.walk(x.target) if isinstance(y, ast.Name)}
+    tables = [x for x in walk_local(f.node) if isinstance(x, ast.Subscript) and isinstance(x.ctx, ast.Load) and isinstance(x.value, ast.Subscript)
+              and norm(x.value.value).endswith("metadata") and isinstance(x.value.slice, ast.Constant) and x.value.slice.value in ("precursorDecayConstants", "delayEmissionSpectrum")]
+    if not tables:
+        # the tables may be bound to locals first
+        env = {s_.node.id: s_.value for s_ in iter_stores(f.node) if s_.kind == "assign" and isinstance(s_.node, ast.Name) and s_.value is not None and "metadata" in norm(s_.value)}
+        tables = [x for x in walk_local(f.node) if isinstance(x, ast.Subscript) and isinstance(x.ctx, ast.Load) and isinstance(x.value, ast.Name) and x.value.id in env]
+    if not tables:
+        raise AnchorMissing("DlayxsIO.readWrite: look-ups in the file-wide precursor tables")
+    for t in tables:
+        used = {y.id for y in ast.walk(t.slice) if isinstance(y, ast.Name)}
+        r.require(bool(used & fam), f"dlayxs:{norm(t.value)[-30:]}:looked-up-per-family", f, node=t,
+                  msg=f"`{norm(t)[:80]}` does not index the file-wide table by a family number of the nuclide: a nuclide whose families are not one consecutive ascending block gets the constants of other families")
+
+
+def r21_pairing(idx, r):
+    from ..pairing import pairing_rule
+    pairing_rule(idx, r, ["armi.nuclearDataIO.cccc"], 100)
+
+
 def run(idx, chk):
     chk.explanation = (
         "C09: static reader/writer agreement for CCCC records: struct formats, byte counters and ASCII field widths of "
@@ -1499,3 +1549,7 @@ def run(idx, chk):
                  necessary="every record the format prescribes for a file is written and read")
     chk.run_rule("R09.19", "the flush loop of each record writer covers every buffered field exactly once (lengths around 1-2 buffers); LABELS 3D record present when either direction has half heights", lambda r: r19_whole_record_flushed(idx, r), floor=3,
                  necessary="the payload written is the payload the byte counts announce; every record the format prescribes is transferred")
+    chk.run_rule("R09.20", "a numbered field uses the count of the same number; DLAYXS precursor data are looked up per family number", lambda r: r20_numbered_fields_and_family_lookup(idx, r), floor=6,
+                 necessary="every value of the data model is written to and read from the field that holds it")
+    chk.run_rule("R09.21", "arguments stand at the parameter they are named after; sibling calls forward the same pass-through parameters", lambda r: r21_pairing(idx, r), floor=1,
+                 necessary="record helpers receive (value, type, shape) in that order")
